@@ -296,6 +296,10 @@ theorem updateOne_AR {types : List String} {b : Browser} (h : b.types = types) (
           exact ⟨h2.1.trans h1.1, h2.2.trans h1.2⟩
       · exact AR_foldl_updated_types r.name (b.matching possible r.name) b k
 
+theorem updateRecords_types {types : List String} {b : Browser} (h : b.types = types) (c : Cache) (now : Ms) (us : List (Rec × Option Rec)) :
+    (updateRecords lower possible c now b us).types = types :=
+  foldl_preserves (fun b : Browser => b.types = types) _ (fun b u hb => types_updateOne lower possible hb c now u) us b h
+
 /-- **the order-independent outcome of the pending-callback dedup**: after any list of record updates, an
 Added is pending for `k` iff one was pending before or some update adds at `k`; a Removed is pending iff no
 Added is and one was pending before or some update removes at `k` -/
